@@ -258,7 +258,20 @@ fn meta_strategy(t: Tier) -> BoxedStrategy<MetaCase> {
         proptest::option::weighted(0.5, prop_oneof![6 => 0u64..4_102_444_800, 4 => 0u64..253_402_300_800, 1 => Just(0u64), 1 => Just(86_399u64)]),
         proptest::option::weighted(0.6, prop_oneof![5 => "[a-z]{3}", 1 => "[A-Z]{3}", 1 => "[a-z]{0,2}", 1 => "[a-z0-9]{4,6}", 1 => "\\PC{1,4}"]),
     )
-        .prop_map(|(base, title, ctime, lang)| MetaCase { base, title, ctime, lang })
+        .prop_map(|(base, mut title, ctime, lang)| {
+            // one case in ten with both: the title contains the ISO-8601 rendering of its own creation time ("Front door 2024-05-17T09:30:00Z")
+            if let (Some(t), Some(ct)) = (title.as_mut(), ctime) {
+                if ct % 10 == 3 && ct < 253_402_300_800 {
+                    if ct % 20 == 3 {
+                        *t = iso8601(ct);
+                    } else {
+                        t.push(' ');
+                        t.push_str(&iso8601(ct));
+                    }
+                }
+            }
+            MetaCase { base, title, ctime, lang }
+        })
         .boxed()
 }
 
@@ -443,6 +456,53 @@ fn replay_lang(v: &Value) -> Result<Outcome, String> {
     Ok(eval_lang(&c))
 }
 
+// ---- creation time taken from the system clock (Metadata::with_current_time) in every position of the with_* chain
+
+pub fn now_cases(_t: Tier) -> Vec<(u8, bool)> {
+    (0..6u8).flat_map(|p| [(p, false), (p, true)]).collect()
+}
+
+pub fn eval_now(c: &(u8, bool)) -> Outcome {
+    let mut o = Outcome::default();
+    o.nontrivial = true;
+    let (perm, audio) = *c;
+    let mut cfg = CCfg::basic(if audio { 1 } else { 0 });
+    if audio {
+        cfg.audio = 7;
+    }
+    cfg.title = Some("clock \u{e9}".into());
+    cfg.lang = Some("deu".into());
+    cfg.ctime = Some(crate::exec::CTIME_NOW);
+    cfg.reconfig = perm << 4;
+    let before = std::time::SystemTime::now().duration_since(std::time::UNIX_EPOCH).map(|d| d.as_secs()).unwrap_or(0);
+    let mut ops = tiny_ops(audio);
+    if cfg.codec == 1 {
+        // tiny_ops builds an H.264 keyframe; for H.265 take a contract-model keyframe
+        ops = vec![COp::Video { pts: 0.0, data: crate::contract::vframe(1, &crate::contract::VF { kind: crate::contract::VKind::KeyCfg, size: 12, shape: 0 }, 1).0, key: true }, COp::Finish(FinishKind::InPlace)];
+    }
+    match mux(&cfg, &ops) {
+        Ok((_, m)) => {
+            check_title(&mut o, &m, "clock \u{e9}");
+            check_lang(&mut o, &m, b"deu", "with_current_time");
+            let items = item(&m, b"\xa9day");
+            if items.len() != 1 {
+                o.fail("date", format!("date.items={}", items.len()), "expected exactly one '(c)day' item when with_current_time() was used");
+            } else {
+                // the rendered instant must lie between the start of this evaluation and now (+- 2 s): compare as ISO strings
+                let after = std::time::SystemTime::now().duration_since(std::time::UNIX_EPOCH).map(|d| d.as_secs()).unwrap_or(u64::MAX);
+                let got = String::from_utf8_lossy(&items[0].value).to_string();
+                let ok = (before.saturating_sub(2)..=after.saturating_add(2)).any(|t| iso8601(t) == got);
+                if !ok {
+                    o.fail("date", "date.current_time", format!("(c)day = {:?} but the system clock read {} .. {} during the call", got, iso8601(before), iso8601(after)));
+                }
+            }
+        }
+        Err(Some(p)) => o.aborted_by_panic = Some(p),
+        Err(None) => o.class("finish_not_ok"),
+    }
+    o
+}
+
 pub fn def() -> PropertyDef {
     PropertyDef {
         fuzz_targets: &[],
@@ -455,6 +515,12 @@ pub fn def() -> PropertyDef {
                Non-trivial = multi-byte title, leap-day / year-boundary date, code other than und/eng",
         assumptions: &["ISO-8601 string correctness is claimed up to year 9999; beyond only termination", "malformed language codes only require a well-formed file"],
         subs: vec![
+            Box::new(LSub {
+                name: "current_time",
+                cases: now_cases,
+                eval: eval_now,
+                note: "with_current_time() in each of the six positions of the Metadata with_* chain, with and without audio: title and language must survive, the date must be the system clock's reading during the call (+- 2 s)",
+            }),
             Box::new(PSub { name: "titles_and_isolation", quick: 8000, thorough: 250000, strat: meta_strategy, eval: eval_meta }),
             Box::new(ESub { name: "dates", run: run_dates, replay: replay_date }),
             Box::new(PSub { name: "random_instants", quick: 20000, thorough: 600000, strat: random_date_strategy, eval: eval_date }),
